@@ -137,6 +137,19 @@ def origins(prog, fn, v, _seen=None, depth=0):
     return {('other', k)}
 
 
+def subst_base(base, call):
+    """instantiate the base of a summary link atom: ('param',k) -> argument Val; nested links recursively"""
+    if isinstance(base, tuple):
+        if base[0] == 'param':
+            i = base[1]
+            if i - 1 < len(call.args):
+                return call.args[i - 1]
+            return ('opaque', 'param?')
+        if base[0] == 'link':
+            return ('link', subst_base(base[1], call), base[2])
+    return base
+
+
 def subst(prog, fn, atom, call, _seen, depth):
     """instantiate a summary atom of the callee at a call site"""
     if atom[0] == 'param':
@@ -147,16 +160,32 @@ def subst(prog, fn, atom, call, _seen, depth):
             return origins(prog, fn, call.args[i - 1], set(_seen), depth + 1)
         return {('other', 'param?')}
     if atom[0] == 'link':
-        base = atom[1]
-        if isinstance(base, tuple) and base[0] == 'param':
-            i = base[1]
-            if i - 1 < len(call.args):
-                return {('link', call.args[i - 1], atom[2])}
-        return {('link', ('atom', base), atom[2])}
+        return {('link', subst_base(atom[1], call), atom[2])}
     return {atom}
 
 
 _in_progress = set()
+
+
+def summarise_base(prog, fn, base, depth=0):
+    """turn the base Val of a link atom into summary form (set of alternatives)"""
+    if not hasattr(base, 'kind'):
+        return {base}
+    sb = strip(base)
+    if sb.kind == 'param':
+        return {('param', sb.args[0])}
+    if depth > 3:
+        return {('opaque', show(sb, 2))}
+    out = set()
+    for a in origins(prog, fn, sb):
+        if a[0] == 'link':
+            for bb in summarise_base(prog, fn, a[1], depth + 1):
+                out.add(('link', bb, a[2]))
+        elif a[0] == 'param':
+            out.add(a)
+        else:
+            out.add(('opaque', atom_str(a)))
+    return out or {('opaque', show(sb, 2))}
 
 
 def ret_summary(prog, fn):
@@ -173,29 +202,37 @@ def ret_summary(prog, fn):
         for r, v in b.ret_val.items():
             for a in origins(prog, fn, v):
                 if a[0] == 'link':
-                    base = a[1]
-                    if hasattr(base, 'kind'):
-                        sb = strip(base)
-                        if sb.kind == 'param':
-                            a = ('link', ('param', sb.args[0]), a[2])
-                        else:
-                            bo = origins(prog, fn, sb)
-                            a = ('link', ('atom', tuple(sorted(map(atom_str, bo)))), a[2])
-                out.add(a)
+                    for bb in summarise_base(prog, fn, a[1]):
+                        out.add(('link', bb, a[2]))
+                else:
+                    out.add(a)
         prog._summ_cache[key] = out
         return out
     finally:
         _in_progress.discard(key)
 
 
-def atom_str(a):
+def base_str(b, names=None):
+    if hasattr(b, 'kind'):
+        sb = strip(b)
+        if sb.kind == 'param' and names:
+            return names(sb.args[0])
+        return show(sb, 3)
+    if isinstance(b, tuple):
+        if b[0] == 'param':
+            return names(b[1]) if names else 'Param%d' % b[1]
+        if b[0] == 'link':
+            return 'node(%s).%s' % (base_str(b[1], names), b[2])
+        if b[0] == 'opaque':
+            return b[1]
+    return str(b)
+
+
+def atom_str(a, names=None):
     if a[0] == 'link':
-        b = a[1]
-        if hasattr(b, 'kind'):
-            bs = show(b, 3)
-        else:
-            bs = str(b)
-        return 'link(%s).%s' % (bs, a[2])
+        return 'node(%s).%s' % (base_str(a[1], names), a[2])
     if a[0] == 'search':
         return 'search:%s' % a[1]
+    if a[0] == 'param' and names:
+        return names(a[1])
     return ':'.join(str(x) for x in a)
